@@ -25,8 +25,7 @@ def Parser_split (fuel : Nat) (data : Bytes) (delim : Bytes) (maxSplit : Int) (p
       else
         (none, i, index, parts)
   match go1 fuel i index parts with
-  | (some r_, i, index, parts) => parts
-  | (none, i, index, parts) =>
+  | (_, i, index, parts) =>
     let parts : List Bytes := (parts ++ [(Cxx.mid data index (-1))])
     parts
 
